@@ -370,20 +370,20 @@ type c20Case struct {
 		Pub string `json:"pub"`
 		Ldr string `json:"ldr"`
 	} `json:"leaf"`
-	Inj       []int  `json:"inj"`
-	Style     string `json:"style"`
-	Form      string `json:"form"`
-	Carrier   string `json:"carrier"`
-	Tail      struct {
+	Inj     []int  `json:"inj"`
+	Style   string `json:"style"`
+	Form    string `json:"form"`
+	Carrier string `json:"carrier"`
+	Tail    struct {
 		Gap   int      `json:"gap"`   // empty documents between the configuration and the further document
 		Empty string   `json:"empty"` // how they are written
 		Load  []string `json:"load"`  // [] = the unknown key at the root; else the rule list holding one entry without action
 	} `json:"tail"`
-	Pos       int    `json:"pos"`
-	NPos      int    `json:"npos"`
-	ExpL      bool   `json:"expl"`
-	ExpP      bool   `json:"expp"`
-	EmptyRule bool   `json:"emptyrule"`
+	Pos       int  `json:"pos"`
+	NPos      int  `json:"npos"`
+	ExpL      bool `json:"expl"`
+	ExpP      bool `json:"expp"`
+	EmptyRule bool `json:"emptyrule"`
 }
 
 var c20RuleLists = map[string]bool{"compiler|passes|[]": true, "veneers|builders|[]": true, "veneers|options|[]": true}
@@ -470,6 +470,8 @@ var c20Required = map[string][]string{
 	"ast.ScalarType":  {"ScalarKind"},
 	"ast.StructField": {"Name", "Type"},
 	"ast.Argument":    {"Name", "Type"},
+	// since d60050e the types carried by builder transformations go through the same gate: a constant parameter needs its type
+	"ast.TypedConstant": {"Type"},
 }
 
 // unions of which one member must be set for the VALUE to be accepted (selectors) or meaningful (types)
